@@ -132,3 +132,31 @@ Fixpoint codes_plain (k : nat) (cs : list lcase) : list (nat * nat) :=
   | [] => []
   | c :: t => let r := lcheck_plain c in if Nat.eqb r 0 then codes_plain (S k) t else (k, r) :: codes_plain (S k) t
   end.
+
+(* per-element comparison of a BATCHED call against the single-start run of that element (the factorisation of an element
+   must not depend on the rest of the batch).  l_vs = [v], l_out = [element]; the batch output is rectangular, so the
+   element may carry more columns than its own run produces: the leading part must agree and the rest must vanish. *)
+Definition tail_small (tolv : float) (l : cvec) (k : nat) : bool := forallb (fun a => cabs1 a <=? tolv) (skipn k l).
+Definition lcheck_elem (c : lcase) : nat :=
+  let o := fops (l_n c) in
+  let m := Nat.min (l_mi c) (l_n c) in
+  let r := lfact o (fmv (l_A c)) (l_alias c) m (l_tol c, 0) (l_vs c) in
+  let iters := (fst r - 1)%nat in
+  match map (ltrim iters) (snd r), l_out c with
+  | [r1], [(Q, off, dg)] =>
+      let scale := fmax 1 (fmax (vmaxabs dg) (vmaxabs off)) in
+      let ok := (iters <=? l_k c)%nat
+                && res_close r1 (firstn iters Q, firstn (iters - 1) off, firstn iters dg)
+                && forallb (fun q => vmaxabs q <=? rtol) (skipn iters Q)
+                && tail_small (rtol * scale) off (iters - 1) && tail_small (rtol * scale) dg iters in
+      if amplified iters (snd r) then 2%nat
+      else if ok then 0%nat
+      else if near_tie (l_tol c) m (fst r) (snd r) then 1%nat
+      else if (iters <=? l_k c)%nat then 4%nat else 3%nat
+  | _, _ => 4%nat
+  end.
+Fixpoint codes_elem (k : nat) (cs : list lcase) : list (nat * nat) :=
+  match cs with
+  | [] => []
+  | c :: t => let r := lcheck_elem c in if Nat.eqb r 0 then codes_elem (S k) t else (k, r) :: codes_elem (S k) t
+  end.
